@@ -10,6 +10,8 @@ PROPS = {
                   {'unit': 'c20_globals', 'labels': [r'C20\.', r'^(?!.*\[C(19|20)\.).*$']},
                   # "meta files report nothing": the ---@meta tag marks the file's module entry meta on every path (also when ---@meta <name> re-registers the module)
                   {'unit': 'c10_module', 'labels': [r'C20\.']}],
+        'replays': [{'for': r'$^', 'driver': 'replay/c20', 'bin': 'replay', 'args': {'mode': 'search'}, 'thorough': True, 'on_undecided': True,
+                     'history': 'generated configurations (one file or a merged global + project pair through the real loader: disable / enables / severity / globals / globalsRegex) x generated files (plain, four meta forms, library, std, file-level enable / disable headers) x 1-3 step histories of one uri; every diagnostic list checked against the five sentences of the statement'}],
         'level': 'proof',
         'level_text': 'Verus discharges, for every state of the indexes and every configuration, the precedence chain of is_checker_enable_by_code, the report/skip/severity contract of add_diagnostic and get_severity, and the enable/library guards of diagnose_file, on the function text extracted from /repo on each run. Unbounded: no input is sampled.',
         'level_note': 'index lookups, default tables, translate_range and check_file are uninterpreted (weakest contract); LuaDiagnosticConfig::new is proved in unit c20_inputs (sets/maps are exactly the configured lists); the globals/globalsRegex guard (check_name_expr of undefined_global.rs) and the DiagnosticIndex writers are proved in unit c20_globals; which globalsRegex patterns compile / what they match is not covered; frame of `diagnostics` by module privacy + scan; Verus/Z3/rustc trusted',
@@ -91,6 +93,8 @@ PROPS = {
         'units': [{'unit': 'c36_exit'}, {'unit': 'c36_writers'},
                   # task/channel bookkeeping of run_check + the whole receive loop of output_result + main-workspace file selection
                   {'unit': 'c36_channel'}],
+        'replays': [{'for': r'$^', 'driver': 'replay/c36', 'bin': 'replay', 'args': {'mode': 'search'}, 'thorough': True, 'on_undecided': True,
+                     'history': 'the real run_check in child processes on generated workspaces of 1, 5, 31, 32, 33, 40, 75 main files + a library, x severity filter x warnings-as-errors x {json, sarif, text}: exit status and the multiset of reported (file, range, code) against an expectation computed from diagnose_file per main file'}],
         'level': 'proof',
         'level_text': "On the real text, for every diagnostics vector, filter and flag. (c36_exit) per file: the writer is handed exactly the order-preserving sub-list that passes --severity, once, under its own file id; the error flag becomes true exactly when a reported diagnostic is an error or (with --warnings-as-errors) a warning; the status is non-zero exactly when the flag is set. (c36_channel) run_check sends exactly one message per main-workspace file (get_main_workspace_file_ids returns exactly the files of the main workspace, each once), the count handed to output_result equals the number of messages, the receive loop of output_result consumes EVERY message exactly once before writer.finish() and terminates; hence every main-workspace file's filtered diagnostics are written once and the exit status reflects all of them. (c36_writers) JSON / SARIF: one entry per diagnostic under its own file; text: one block per diagnostic.",
         'level_note': 'Vec::retain std contract assumed; tokio abstracted by the named rules async-seq-*: every spawned task runs its body to completion exactly once before the receiver sees the channel closed (scheduling, task panics, runtime shutdown, back-pressure not modelled: the clauses are about WHICH messages are sent and consumed); diagnose_file a function of (analysis, file id); stdout / File as ghost event logs; serde_json and formatting opaque; index invariant file_module_map[k].file_id == k assumed here (a conjunct of module_wf, unit c10_module); counters are usize',
@@ -258,6 +262,8 @@ PROPS = {
                   # hand-built Locations pair a uri with a range of the SAME document (10 sites + LuaDocument::to_lsp_location); the description part of
                   # selection ranges (add_detail_ranges): half-open containment, sorted by length, strictly growing chain under laminar markup items
                   {'unit': 'c26_locations'}],
+        'replays': [{'for': r'$^', 'driver': 'replay/c26', 'bin': 'replay', 'args': {'mode': 'search'}, 'thorough': True, 'on_undecided': True, 'target': 'replay-target-hook',
+                     'history': 'the real handlers through the guarded hook on 5 generated 5-file workspaces (call operators declared in another file, adjacent markdown items, non-ASCII / non-BMP text, CRLF, regions): every Location inside the document named by its uri and covering the declaration it stands for, selection chains, symbol nesting, folding ranges, semantic-token order / overlap / legend, completion and rename edits, at every position'}],
         'level': 'proof',
         'level_text': 'Clause by clause, on the real code, for all inputs. Semantic tokens (c26_semantic_tokens): legend indices and modifier bits inside the advertised legend, delta encoding decodes to the (line, col)-sorted pieces, multi-line split. Document symbols (c26_ranges): children nest within their parents, selection ranges inside ranges (builder + the binding slices of local / assign statements). Folding ranges (c26_ranges): start <= end for every builder, region pairing. Selection ranges: the ancestor chain is the ancestry of the token, every parent contains its child and differs from it (c26_ranges); the description detail ranges contain the offset (half-open), are sorted by length and form a strictly growing chain when the markup items are laminar (c26_locations). Locations (c26_locations): LuaDocument::to_lsp_location and the 10 hand-built Location sites pair a uri with a range converted by the SAME document.',
         'level_note': 'assumed: std contracts of sort_unstable_by / sort_by_key / collect; LuaDocument::get_line_col / to_lsp_range contracts are proved in unit c22_lineindex and restated as shims; lsp_types constants pairwise distinct; index consistency (an operator / declaration range belongs to the file recorded with it); tree-document agreement; markup items are laminar (any two nest or are disjoint: a property of the 8.8 kLoC markup parser of C37). NOT covered: non-overlap of semantic tokens, the sentinel length of split pieces, completion edits, workspace-edit overlap, the 27 other callers of to_lsp_location (callee under contract, arguments not), get_document_lsp_range ends at (line_count, 0), one line past the last line',
